@@ -25,6 +25,7 @@ type LoopSpec struct {
 	Invariants []*Clause
 	Modifies   []string
 	HasMod     bool
+	Ghosts     []GhostLet // evaluated when the loop is first reached (before the havoc)
 }
 
 type GhostLet struct {
@@ -362,6 +363,16 @@ func (cs *Contracts) loadFile(file, pkgPath string) error {
 				if r3 != "nothing" {
 					ls.Modifies = append(ls.Modifies, splitCommaList(r3)...)
 				}
+			case "ghost":
+				i := strings.Index(r3, ":=")
+				if i < 0 {
+					return fmt.Errorf("%s:%d: loop ghost needs :=", rl.file, rl.line)
+				}
+				e, err := parseSpecExpr(r3[i+2:])
+				if err != nil {
+					return fmt.Errorf("%s:%d: %v", rl.file, rl.line, err)
+				}
+				ls.Ghosts = append(ls.Ghosts, GhostLet{strings.TrimSpace(r3[:i]), e})
 			default:
 				return fmt.Errorf("%s:%d: loop clause %q", rl.file, rl.line, k2)
 			}
